@@ -226,6 +226,13 @@ def run(ck):
         ck.count("config:" + label, 300)
 
     # ---- differ inside Coq
+    gtot, gbad, gfirst = regk.generated_stream(ck, rng, 40 if thorough else 6, oracle, "c01")
+    ck.extra["generated_registry_cases"] = gtot
+    ck.extra["generated_registry_disagreements"] = gbad
+    if gbad:
+        ck.broken.append(f"correspondence on generated registries: {gbad} disagreements")
+        if not fails:
+            ck.violation("correspondence-generated", "model and implementation disagree on a generated registry; no property oracle failed", gfirst, no_input=True)
     bad = ck.coq_mismatches("c01", regk.HEADER, cases, "ok")
     ck.extra["model_vs_impl_cases"] = len(cases)
     ck.extra["model_vs_impl_disagreements"] = None if bad is None else len(bad)
